@@ -35,4 +35,12 @@ PROPS = {
         "level_text": "Proof that for every byte string the stream decoder delivers only a split of what the peer sent after the framing bytes, that any announced size that is negative or above a set limit is refused whatever follows (the extractor checks the guard precedes the allocation), and that every pattern's header parser conserves bytes; the real conn code is fed negative/huge lengths, limit+-1, truncation at every offset and random mutations, every protocol's receiver is fed the word catalogue of lengths 0..15 followed by a well-formed sentinel that must still get through, and a stalled handshake must not delay another peer.",
         "level_note": COMMON_NOTE + "Absence of panics and of unbounded allocation is observed (process survival, GOMEMLIMIT), not proved; REQ/SURVEYOR/SUB receive paths are covered by C03/C07/C06.",
     },
+    "C06": {
+        "obl": ["Obl.Sub"],
+        "sites": ["protocol/sub", "protocol/xpub"],
+        "assumptions": ["atomic-step granularity: each receiver iteration / API call is one step (justified by the lock discipline, C11/C12)", "Go select picks any ready case: modelled as a set of allowed outcomes"],
+        "technique": "Lean 4 state machines for SUB and PUB/XPUB with an inductive invariant over all operation histories (queued messages match current subscriptions); machines validated step by step against the real protocols driven through virtual pipes under a goroutine-census quiescence barrier",
+        "level_text": "Proof by induction over all finite histories of subscribe/unsubscribe/publish/receive/resize/open/close on any number of contexts and publishers (every interleaving of the protocol's atomic steps) that Recv only returns messages matching the context's current subscriptions, that matching is exactly prefix-of-body, that contexts do not interfere, that overflow drops the oldest, and that PUB hands every message to every idle subscriber pipe with per-pipe independence; the same executable machines are compared with protocol/sub and protocol/(x)pub on random histories over adversarial topics (empty, equal, nested, non-UTF8), including slow-subscriber back-pressure and send failures.",
+        "level_note": COMMON_NOTE + "Per-publisher order / at-most-once are checked by the harness oracle on sequence-numbered messages, not proved; XSUB (no filtering) is covered by C16's parse runs.",
+    },
 }
